@@ -546,9 +546,96 @@ class _SubstNames(ast.NodeTransformer):
         return n
 
 
+def _branch_expr(fn: ast.FunctionDef) -> Optional[ast.AST]:
+    """the value of a helper whose body is simple local assignments, `if` statements whose
+    branches are again such assignments (a local chosen by a condition), `if C: return A`
+    steps and a final `return e`: evaluated over an environment of local expressions, a
+    conditionally assigned local becoming a conditional expression.  None for anything else
+    (loops, calls as statements, locals assigned on one branch only and used later...)."""
+    params = {a.arg for a in fn.args.posonlyargs + fn.args.args + fn.args.kwonlyargs}
+
+    class Fail(Exception):
+        pass
+
+    def sub(e: ast.AST, env: Dict[str, ast.AST]) -> ast.AST:
+        for n in ast.walk(e):
+            if isinstance(n, (ast.Lambda, ast.ListComp, ast.SetComp, ast.DictComp,
+                              ast.GeneratorExp, ast.NamedExpr)):
+                bound = {x.id for x in ast.walk(n) if isinstance(x, ast.Name)
+                         and isinstance(x.ctx, ast.Store)} | \
+                    {a.arg for l in ast.walk(n) if isinstance(l, ast.Lambda)
+                     for a in l.args.args}
+                if bound & set(env):
+                    raise Fail()
+        return _SubstNames(env).visit(copy.deepcopy(e)) if env else copy.deepcopy(e)
+
+    def assigns(stmts, env: Dict[str, ast.AST]) -> Dict[str, ast.AST]:
+        env = dict(env)
+        for s in stmts:
+            if isinstance(s, ast.AnnAssign) and s.value is None:
+                continue
+            if isinstance(s, (ast.Assign, ast.AnnAssign)):
+                tg = s.targets if isinstance(s, ast.Assign) else [s.target]
+                if len(tg) != 1:
+                    raise Fail()
+                t = tg[0]
+                if isinstance(t, ast.Name):
+                    env[t.id] = sub(s.value, env)
+                elif isinstance(t, ast.Tuple) and isinstance(s.value, ast.Tuple) and \
+                        len(t.elts) == len(s.value.elts) and \
+                        all(isinstance(x, ast.Name) for x in t.elts):
+                    vals = [sub(v, env) for v in s.value.elts]
+                    for x, v in zip(t.elts, vals):
+                        env[x.id] = v
+                else:
+                    raise Fail()
+            elif isinstance(s, ast.If):
+                test = sub(s.test, env)
+                a, b = assigns(s.body, env), assigns(s.orelse, env)
+                for k in set(a) | set(b):
+                    va, vb = a.get(k), b.get(k)
+                    if va is None or vb is None:
+                        raise Fail()     # bound on one path only
+                    if ast.dump(va) != ast.dump(vb):
+                        env[k] = ast.IfExp(copy.deepcopy(test), va, vb)
+                    else:
+                        env[k] = va
+            elif isinstance(s, ast.Pass):
+                continue
+            else:
+                raise Fail()
+        return env
+
+    body = _docless(fn.body)
+    if not body or not isinstance(body[-1], ast.Return) or body[-1].value is None:
+        return None
+    try:
+        env: Dict[str, ast.AST] = {}
+        chain = []
+        for s in body[:-1]:
+            if isinstance(s, ast.If) and not s.orelse and len(s.body) == 1 and \
+                    isinstance(s.body[0], ast.Return) and s.body[0].value is not None:
+                chain.append((sub(s.test, env), sub(s.body[0].value, env)))
+                continue
+            env = assigns([s], env)
+        if set(env) & params:
+            return None                   # a parameter is rebound: not handled here
+        out = sub(body[-1].value, env)
+        for t, v in reversed(chain):
+            out = ast.IfExp(t, v, out)
+        return ast.fix_missing_locations(out)
+    except Fail:
+        return None
+
+
 def pure_body_expr(fn: ast.FunctionDef) -> Optional[ast.AST]:
     """the expression a helper returns when its body is local assignments and one
     unconditional `return e` (locals expanded); None for anything else"""
+    r = _pure_body_expr(fn)
+    return r if r is not None else _branch_expr(fn)
+
+
+def _pure_body_expr(fn: ast.FunctionDef) -> Optional[ast.AST]:
     from .guards import walk_function
     body = _docless(fn.body)
     if not body or not isinstance(body[-1], ast.Return) or body[-1].value is None:
